@@ -152,7 +152,7 @@ def share_label_names(x):  # type: ignore
 def main() -> None:
     run = Run("C05", "translation_validation")
     run.forbid()
-    run.require_vo(["Ssb/EquivSound.v", "Lang/Inline.v", "Lang/InlineProofs.v", "Lang/MacroStatic.v", "Lang/InlineFree.v", "Lang/SrcSem.v", "Comp/MacroBuild.v", "Comp/MacroBuildProofs.v"])
+    run.require_vo(["Ssb/EquivSound.v", "Lang/Inline.v", "Lang/InlineProofs.v", "Lang/MacroStatic.v", "Lang/InlineFree.v", "Lang/SrcSem.v", "Comp/MacroBuild.v", "Comp/MacroBuildProofs.v", "Comp/RenameSem.v", "Comp/ExpandSame.v", "Comp/ReturnSem.v"])
     run.props("Props/C05.v")
     run.props("Props/C01.v")
     q = run.tier == "quick"
@@ -206,6 +206,10 @@ def main() -> None:
     # imports: directory layouts x lookup paths (see checks/c05_imports)
     from checks.c05_imports import run_imports
     run_imports(run, q)
+    run.assume("K-build: the model Comp/MacroBuild.v is tied to ExplorerScriptMacro.build by comparing, for every invocation in these "
+               "compilations, the emitted items and both counters (the length stored in start labels is left to C08's K-ra); the theorems "
+               "about expansions (renaming, private labels, same code) are about that model; that blueprints mean the macro bodies is "
+               "validated per program, not proved")
     run.assume("macro semantics = Lang/Inline.v (substitution, private labels, return -> end of expansion); macro arguments never "
                "name the PERFORMANCE_PROGRESS_LIST variable (its bit forms are chosen when the macro is defined)")
     run.finish(rule="macro programs: random acyclic call graphs (depth up to 5) in random definition order, all argument kinds, "
